@@ -16,6 +16,16 @@ CHECKS = {
         'Trusted: Coq kernel + vm_compute; hash((prefix,id)) abstracted as a function of the two strings; numpy.unique/bisect modelled; '
         'harness rendering. idx >= 0 for directly constructed ids; no lone surrogates.',
         '§4 C04'),
+    'C17': (
+        'Coq proof (refinement of the CSR builder to a dense map, by induction over assignment histories) + per-run vm_compute correspondence with src/hpotk/graph/csr/_csr.py',
+        'Machine-checked theorems for every shape, every value type with a zero and EVERY history of assignments: the builder keeps a valid '
+        'sorted CSR and denotes the last-write-wins dense matrix (builder_refines_dense); for any valid CSR triple (sorted or not) cell, row and '
+        'value->columns reads equal the dense matrix, each column once; any coordinate outside the shape (negative included) raises. '
+        'Correspondence: all assignment sequences of length <=3 (quick) / <=4 (thorough) on a 2x3 matrix, degenerate shapes, random histories '
+        'and hand-built CSR triples, with every cell/row/value query and out-of-range coordinate read back from the real classes.',
+        'Trusted: Coq kernel + vm_compute; numpy slicing / fancy assignment / masks and deque.insert modelled functionally; dtype values rendered '
+        'as integers (exact). Error class is compared only as error-vs-value (the property does not fix it). NZ hypothesis = assignments of non-zero values, as the property states.',
+        '§4 C17'),
 }
 
 PLANNED = {}
